@@ -92,7 +92,11 @@ class Engine:
                 tail = T.weighted([(3, "none"), (1, "cut"), (1, "psil"),
                                    (1, "noise"), (1, "init")])
                 uses.append({"mode": T.choice(USE_MODES), "k": T.draw(6),
-                             "n": n, "tail": tail})
+                             "n": n, "tail": tail,
+                             # finalise a suspended earlier generator after
+                             # this many tokens of this use (0 = never)
+                             "finalise_kept_after": T.draw(4),
+                             "finalise_how": T.draw(2)})
             sc["uses"] = uses
             sc["patterns"] = [C.gen_pattern(T, u["n"]) for u in uses]
         else:
@@ -173,7 +177,21 @@ class Engine:
                 got = norm(acc)
                 want = fresh
             elif mode == "gen_full":
-                got = norm(list(reused.tokenize(src, generator=True)))
+                acc = []
+                fk = u.get("finalise_kept_after", 0)
+                for t in reused.tokenize(src, generator=True):
+                    acc.append(t)
+                    if fk and len(acc) == fk and keep:
+                        # an abandoned generator is finalised (closed /
+                        # garbage-collected) while a later run is under way
+                        old = keep.pop(0)
+                        if u.get("finalise_how"):
+                            old.close()
+                        del old
+                        out["faults"]["finalise_suspended_midrun"] = \
+                            out["faults"].get(
+                                "finalise_suspended_midrun", 0) + 1
+                got = norm(acc)
                 want = fresh
             else:
                 g = reused.tokenize(src, generator=True)
@@ -277,6 +295,41 @@ class Engine:
                                          [(a, b) for a, b, _ in got],
                                          [(a, b) for a, b, _ in want]),
                            "C20.2:split_repeat")
+        # two independent split() calls with equal parameters on different
+        # inputs, consumed in lock step: each must behave as if alone
+        data2 = C.synth(sc["pattern2"], bsz, sw, ch)
+
+        def do2():
+            return split(data2, sr=sr, sw=sw, ch=ch, analysis_window=aw,
+                         **kw)
+        want2 = key(do2())
+        g1, g2 = do(), do2()
+        acc1, acc2 = [], []
+        live1 = live2 = True
+        turn = sc["nwin2"] % 2
+        while live1 or live2:
+            out["steps"] += 1
+            if (turn % 2 == 0 and live1) or not live2:
+                try:
+                    acc1.append(next(g1))
+                except StopIteration:
+                    live1 = False
+            else:
+                try:
+                    acc2.append(next(g2))
+                except StopIteration:
+                    live2 = False
+            turn += 1
+        out["faults"]["interleaved_generators"] = 1
+        if key(acc1) != want or key(acc2) != want2:
+            return self._V("C20.2", "two split() generators with equal "
+                           "parameters consumed in lock step interfere: got "
+                           "%r / %r, alone they give %r / %r" % (
+                               [(a, b) for a, b, _ in key(acc1)],
+                               [(a, b) for a, b, _ in key(acc2)],
+                               [(a, b) for a, b, _ in want],
+                               [(a, b) for a, b, _ in want2]),
+                           "C20.2:split_interleaved")
         cur = bytes(obj.data) if sc["as_region"] else bytes(obj)
         if cur != snapshot:
             return self._V("C20.2", "input object was modified by split()",
@@ -323,6 +376,23 @@ class Engine:
                                [(a, b) for a, b, _ in fresh]),
                            "C20.3:live_vs_recorded")
         reads_before = src.reads
+        # replays stopped early, each followed by another rewind
+        for how2, k2 in sc["history"][1:]:
+            if how2 in ("partial", "drop"):
+                g2 = split(reader, **kw)
+                for j, _r in enumerate(g2, 1):
+                    if j >= max(1, k2):
+                        break
+                if how2 == "drop":
+                    del g2
+                out["faults"]["partial_replay"] = \
+                    out["faults"].get("partial_replay", 0) + 1
+            reader.rewind()
+            if reader.data != rec:
+                return self._V("C20.3", "recorded data changed after a "
+                               "partially consumed replay (%d -> %d bytes)"
+                               % (len(rec), len(reader.data)),
+                               "C20.3:recorded_changed")
         for n in range(2):
             out["steps"] += 1
             again = key(split(reader, **kw))
@@ -363,9 +433,23 @@ class Engine:
             if order:
                 order = order[k % len(order):] + order[:k % len(order)]
         seq = order + order[::-1]
+        mutable = sc["as_region"]
+        buf = bytearray(max(len(w_) for w_ in wins))
+        if mutable:
+            out["probes"]["validator_reused_mutable_buffer"] = 1
         for i in seq:
             out["steps"] += 1
-            got = v.is_valid(wins[i])
+            if mutable:
+                # the caller reuses one buffer for successive windows
+                n_ = len(wins[i])
+                buf[:n_] = wins[i]
+                arg = memoryview(buf)[:n_] if n_ != len(buf) else buf
+                try:
+                    got = v.is_valid(arg)
+                except (TypeError, ValueError, BufferError):
+                    got = v.is_valid(bytes(arg))
+            else:
+                got = v.is_valid(wins[i])
             if bool(got) != bool(fresh[i]):
                 return self._V("C20.4", "validator verdict for window %d "
                                "changed after judging other windows" % i,
